@@ -20,11 +20,13 @@ Variable env : key -> N.
 Variable F : key -> N -> list value -> list N -> N -> N.
 Variable order : N -> key -> list dep -> list dep.
 Variable rank : key -> nat.
+Variable R : key -> N -> rule.
 
 (* hypotheses of the theorems *)
 Definition wf_rank : Prop := forall k x, In x (mentioned (rules k)) -> (rank x < rank k)%nat.
 Definition wf_disc : Prop := forall k d, In d (r_disc (rules k)) -> r_obs (rules d) = true.
 Definition wf_order : Prop := forall e k l, Permutation l (order e k l).
+Definition table_ok : Prop := forall k, R k (r_sig (rules k)) = rules k.
 
 (* the clean value with the canonical sufficient fuel *)
 Definition cvk (k : key) : option value := cv rules env F (S (rank k)) k.
@@ -33,19 +35,21 @@ Definition cvk (k : key) : option value := cv rules env F (S (rank k)) k.
 Definition fresh_deps (m : alist) (r : result) : Prop :=
   forall d, In d (cdeps r) -> res_computedAt (get m (d_key d)) <= res_builtAt r.
 
-(* the stored value is the task function of the CURRENT stored inputs, and those inputs are recorded *)
-Definition row_concl (m : alist) (k : key) (r : result) (v : value) : Prop :=
-  let rl := rules k in
+(* the stored value is the task function (of rule rl) of the CURRENT stored inputs, and those inputs are recorded *)
+Definition row_concl (rl : rule) (m : alist) (k : key) (r : result) (v : value) : Prop :=
   let slots1 := map (stored m) (r_req rl) in
   let bk := branch_keys rl slots1 in
   fst v = F k (r_sig rl) (map payload_of (slots1 ++ map (stored m) bk)) (map (stamp_of m) (r_disc rl)) (snd v)
   /\ forall x, In x (r_req rl ++ bk ++ r_disc rl) -> In (mkDep x false false) (cdeps r).
 
+(* R k sg: THE rule of key k that has signature sg (two different rules of a key never share a signature);
+   for a fixed rule table take R := fun k _ => rules k *)
 Definition row_ok (m : alist) (k : key) (r : result) : Prop :=
-  res_builtAt r <> 0 -> res_sig r = r_sig (rules k) ->
-  exists v, res_value r = Some v /\ (r_obs (rules k) = false -> snd v = 0) /\
-    (forall d, In d (drop_single (res_deps r)) -> In (d_key d) (mentioned (rules k))) /\
-    (fresh_deps m r -> row_concl m k r v).
+  res_builtAt r <> 0 ->
+  let rl := R k (res_sig r) in
+  exists v, res_value r = Some v /\ (r_obs rl = false -> snd v = 0) /\
+    (forall d, In d (drop_single (res_deps r)) -> In (d_key d) (mentioned rl)) /\
+    (fresh_deps m r -> row_concl rl m k r v).
 
 Definition bnd (s : state) : Prop :=
   forall k, res_computedAt (get (st_mem s) k) <= res_builtAt (get (st_mem s) k) /\
@@ -199,8 +203,9 @@ Variable rules : key -> rule.
 Variable env : key -> N.
 Variable F : key -> N -> list value -> list N -> N -> N.
 Variable rank : key -> nat.
+Variable R : key -> N -> rule.
 
-Local Notation G := (Good rules env F rank).
+Local Notation G := (Good rules env F rank R).
 Local Notation provs_ok := (provs_ok rules env F rank).
 
 Lemma Good_ext : forall E s s', st_mem s' = st_mem s -> st_epoch s' = st_epoch s -> st_db s' = st_db s ->
